@@ -42,6 +42,8 @@ class Recorder:
 def real_simulate(project, params, recorder=None, backward=False, **kw):
     """call the real simulate (or backward_simulate) with the observer installed"""
     env.bp._verif_observer = recorder
+    if params.get("errorTol") is not None:
+        kw = dict(kw, error_tol=params["errorTol"])
     try:
         f = project.backward_simulate if backward else project.simulate
         f(task_priority_rule=TASK_RULES[params["rule"]],
